@@ -308,6 +308,29 @@ func JudgeC05(sc *Scenario, tr *Transcript) *Verdict {
 					vd.add("C05/move-start/source-not-marked", "replica %d: target %d was moved but no reporting shard keeps it marked in_transfer", ri, h)
 				}
 			}
+			// a copy newly marked in_transfer needs an in-sync holder in normal state after the cycle
+			for s := 0; s < v.N; s++ {
+				if !v.InSync[s] {
+					continue
+				}
+				r, ok := v.Report[s][h]
+				p, ok2 := v.Post[s][h]
+				if !ok || !ok2 || r.State != "" || p.State != "in_transfer" {
+					continue
+				}
+				vd.NonTrivial = true
+				dest := false
+				for d := 0; d < v.N; d++ {
+					if d != s && v.InSync[d] {
+						if q, ok := v.Post[d][h]; ok && q.State == "" {
+							dest = true
+						}
+					}
+				}
+				if !dest {
+					vd.add("C05/move-start/marked-without-destination", "replica %d: target %d was marked in_transfer on shard %d but no in-sync shard holds it in normal state after the cycle", ri, h, s)
+				}
+			}
 			// move end
 			for s := 0; s < v.N; s++ {
 				if !v.InSync[s] {
@@ -552,6 +575,30 @@ func JudgeC08(sc *Scenario, tr *Transcript) *Verdict {
 		if unhealthy > 0 && work {
 			vd.NonTrivial = true
 			vd.class("unhealthy-next-to-work")
+		}
+		// a shard that is not in sync is never chosen as destination: a copy newly marked in_transfer
+		// on an in-sync shard must have an in-sync holder in normal state
+		for s := 0; s < v.N; s++ {
+			if !v.InSync[s] {
+				continue
+			}
+			for h, r := range v.Report[s] {
+				p, ok := v.Post[s][h]
+				if !ok || r.State != "" || p.State != "in_transfer" {
+					continue
+				}
+				dest := false
+				for d := 0; d < v.N; d++ {
+					if d != s && v.InSync[d] {
+						if q, ok := v.Post[d][h]; ok && q.State == "" {
+							dest = true
+						}
+					}
+				}
+				if !dest && unhealthy > 0 {
+					vd.add("C08/unsynced-shard-chosen-as-destination", "replica %d: target %d is being moved off shard %d but no in-sync shard received it (a shard that is not in sync was chosen as destination)", ri, h, s)
+				}
+			}
 		}
 		// targets reported by a reachable, not in-sync shard and by no in-sync shard are not assigned elsewhere
 		for h := range v.Disc {
